@@ -73,6 +73,11 @@ func progress(be backend, m int, parallel bool, workers int, stopHow string) vs.
 		waitReturned := false
 		body := func() {
 			parent, cancelParent := context.WithCancel(context.Background())
+			if stopHow == "deadline" {
+				// the broker's context ends by deadline expiry (DeadlineExceeded, not
+				// Canceled); model time only advances when nothing else can run
+				parent, cancelParent = context.WithTimeout(context.Background(), time.Second)
+			}
 			sctx, cancelSub := context.WithCancel(context.Background())
 			b := be.mk(parent, pubsub.BrokerOptions{ParallelDispatch: parallel, WorkerPoolSize: workers})
 			fin := make(chan struct{}, 2)
@@ -86,9 +91,10 @@ func progress(be backend, m int, parallel bool, workers int, stopHow string) vs.
 			}()
 			vs.Quiesce()
 			atQuiet = len(got)
-			if stopHow == "stop" {
+			switch stopHow {
+			case "stop":
 				b.Stop()
-			} else {
+			case "cancel":
 				cancelParent()
 			}
 			b.Wait(context.Background())
@@ -127,6 +133,9 @@ func shutdown(be backend, m int, parallel bool, stopHow string, concurrentWait b
 		waitReturned := false
 		body := func() {
 			parent, cancelParent := context.WithCancel(context.Background())
+			if stopHow == "deadline" {
+				parent, cancelParent = context.WithTimeout(context.Background(), time.Second)
+			}
 			cctx, cancelClients := context.WithCancel(context.Background())
 			b := be.mk(parent, pubsub.BrokerOptions{ParallelDispatch: parallel})
 			fin := make(chan struct{}, 4)
@@ -143,9 +152,10 @@ func shutdown(be backend, m int, parallel bool, stopHow string, concurrentWait b
 				go func() { b.Wait(context.Background()); fin <- struct{}{} }()
 			}
 			// the stopper runs concurrently with everything above
-			if stopHow == "stop" {
+			switch stopHow {
+			case "stop":
 				b.Stop()
-			} else {
+			case "cancel":
 				cancelParent()
 			}
 			b.Wait(context.Background())
@@ -256,11 +266,11 @@ func build(tier string) ([]runner.Instance, time.Duration) {
 					if w == 2 && (par || tier != "thorough") {
 						continue
 					}
-					for _, how := range []string{"stop", "cancel"} {
+					for _, how := range []string{"stop", "cancel", "deadline"} {
 						out = append(out, runner.Instance{Group: "progress/" + be.name, Name: fmt.Sprintf("progress/%s/m=%d,par=%v,w=%d,%s", be.name, m, par, w, how), Bound: bound, Scenario: progress(be, m, par, w, how)})
 					}
 				}
-				for _, how := range []string{"stop", "cancel"} {
+				for _, how := range []string{"stop", "cancel", "deadline"} {
 					for _, cw := range []bool{false, true} {
 						if par && cw {
 							continue
